@@ -29,6 +29,48 @@ type PKI struct {
 	CRLRevoked []byte
 }
 
+// createCert is x509.CreateCertificate; with an ECDSA issuer it retries until the issuer's
+// signature has the common DER length, so that certificate sizes do not vary from run to run.
+func createCert(tmpl, parent *x509.Certificate, pub any, priv crypto.Signer) ([]byte, error) {
+	for try := 0; ; try++ {
+		der, err := x509.CreateCertificate(rand.Reader, tmpl, parent, pub, priv)
+		if err != nil {
+			return nil, err
+		}
+		k, ok := priv.(*ecdsa.PrivateKey)
+		if !ok || try > 200 {
+			return der, nil
+		}
+		c, err := x509.ParseCertificate(der)
+		if err != nil {
+			return nil, err
+		}
+		if len(c.Signature) == ecdsaFixedLen(k) {
+			return der, nil
+		}
+	}
+}
+
+func createCRL(tmpl *x509.RevocationList, issuer *x509.Certificate, priv crypto.Signer) ([]byte, error) {
+	for try := 0; ; try++ {
+		der, err := x509.CreateRevocationList(rand.Reader, tmpl, issuer, priv)
+		if err != nil {
+			return nil, err
+		}
+		k, ok := priv.(*ecdsa.PrivateKey)
+		if !ok || try > 200 {
+			return der, nil
+		}
+		c, err := x509.ParseRevocationList(der)
+		if err != nil {
+			return nil, err
+		}
+		if len(c.Signature) == ecdsaFixedLen(k) {
+			return der, nil
+		}
+	}
+}
+
 func parseKey(p string) crypto.Signer {
 	b, _ := pem.Decode([]byte(p))
 	if b == nil {
@@ -86,7 +128,7 @@ func NewPKI(o PKIOptions, now time.Time) (*PKI, error) {
 		KeyUsage:              x509.KeyUsageCertSign | x509.KeyUsageCRLSign,
 		SubjectKeyId:          []byte{0xCA, 1, 2, 3, 4, 5, 6, 7},
 	}
-	caDER, err := x509.CreateCertificate(rand.Reader, caT, caT, p.CAKey.Public(), p.CAKey)
+	caDER, err := createCert(caT, caT, p.CAKey.Public(), p.CAKey)
 	if err != nil {
 		return nil, err
 	}
@@ -105,7 +147,7 @@ func NewPKI(o PKIOptions, now time.Time) (*PKI, error) {
 	if o.CRLURL != "" {
 		leafT.CRLDistributionPoints = []string{o.CRLURL}
 	}
-	leafDER, err := x509.CreateCertificate(rand.Reader, leafT, p.CACert, p.LeafKey.Public(), p.CAKey)
+	leafDER, err := createCert(leafT, p.CACert, p.LeafKey.Public(), p.CAKey)
 	if err != nil {
 		return nil, err
 	}
@@ -127,7 +169,7 @@ func NewPKI(o PKIOptions, now time.Time) (*PKI, error) {
 	if o.CRLURL != "" {
 		tsaT.CRLDistributionPoints = []string{o.CRLURL}
 	}
-	tsaDER, err := x509.CreateCertificate(rand.Reader, tsaT, p.CACert, p.LeafKey.Public(), p.CAKey)
+	tsaDER, err := createCert(tsaT, p.CACert, p.LeafKey.Public(), p.CAKey)
 	if err != nil {
 		return nil, err
 	}
@@ -135,12 +177,12 @@ func NewPKI(o PKIOptions, now time.Time) (*PKI, error) {
 		return nil, err
 	}
 	crlT := &x509.RevocationList{Number: big.NewInt(7), ThisUpdate: nb, NextUpdate: na}
-	if p.CRL, err = x509.CreateRevocationList(rand.Reader, crlT, p.CACert, p.CAKey); err != nil {
+	if p.CRL, err = createCRL(crlT, p.CACert, p.CAKey); err != nil {
 		return nil, err
 	}
 	crlR := &x509.RevocationList{Number: big.NewInt(8), ThisUpdate: nb, NextUpdate: na,
 		RevokedCertificateEntries: []x509.RevocationListEntry{{SerialNumber: big.NewInt(o.Serial), RevocationTime: nb}}}
-	if p.CRLRevoked, err = x509.CreateRevocationList(rand.Reader, crlR, p.CACert, p.CAKey); err != nil {
+	if p.CRLRevoked, err = createCRL(crlR, p.CACert, p.CAKey); err != nil {
 		return nil, err
 	}
 	return p, nil
